@@ -41,24 +41,43 @@ def main():
     finally:
         sh("git -C %s worktree remove --force %s" % (REPO, wt))
         shutil.rmtree(wt, ignore_errors=True)
-    # run the checks against /repo with the patch applied, then undo
     fired = {}
-    rc, out = sh("git -C %s status --porcelain -- src" % REPO)
-    assert not out.strip(), "repo not clean: " + out
-    rc, out = sh("git -C %s apply %s" % (REPO, patch))
-    assert rc == 0, out
-    try:
-        env = dict(os.environ, VERIF_EVIDENCE_DIR="/tmp/seed-ev", VERIF_REPLAY_DIR="/tmp/seed-rp", VERIF_TIER="quick")
-        for i in range(1, 18):
-            pid = "C%02d" % i
-            rc, out = sh("%s/checks/check %s --tier quick" % (V, pid), cwd=V, env=env)
-            keys = [l.strip()[len("violated: "):] for l in out.splitlines() if l.strip().startswith("violated:")]
-            if rc != 0:
-                fired[pid] = {"exit": rc, "violations": [k[:300] for k in keys][:6] or [out.strip()[-300:]]}
-    finally:
-        sh("git -C %s checkout -- ." % REPO)
-    rc, out = sh("git -C %s status --porcelain -- src" % REPO)
-    assert not out.strip(), "repo not restored: " + out
+    COPY = os.environ.get("SEEDED_EVAL_COPY") == "1"
+    if COPY:
+        # parallel-safe mode: the checks run against a scratch COPY of /repo with the patch applied (VERIF_REPO), as the battery does
+        scratch = tempfile.mkdtemp(prefix="seedrun-", dir="/tmp")
+        try:
+            repo = os.path.join(scratch, "repo")
+            rc, out = sh("rsync -a --exclude target --exclude .git %s/ %s/ && cd %s && git apply %s" % (REPO, repo, repo, patch))
+            assert rc == 0, out
+            env = dict(os.environ, VERIF_REPO=repo, VERIF_CACHE_DIR=os.path.join(scratch, "cache"), VERIF_EVIDENCE_DIR=os.path.join(scratch, "ev"),
+                       VERIF_REPLAY_DIR=os.path.join(scratch, "rp"), VERIF_TIER="quick", VERIF_NO_BATTERY="1")
+            for i in range(1, 18):
+                pid = "C%02d" % i
+                rc, out = sh("%s/checks/check %s --tier quick" % (V, pid), cwd=V, env=env)
+                keys = [l.strip()[len("violated: "):] for l in out.splitlines() if l.strip().startswith("violated:")]
+                if rc != 0:
+                    fired[pid] = {"exit": rc, "violations": [k[:300] for k in keys][:6] or [out.strip()[-300:]]}
+        finally:
+            shutil.rmtree(scratch, ignore_errors=True)
+    else:
+        # run the checks against /repo with the patch applied, then undo
+        rc, out = sh("git -C %s status --porcelain -- src" % REPO)
+        assert not out.strip(), "repo not clean: " + out
+        rc, out = sh("git -C %s apply %s" % (REPO, patch))
+        assert rc == 0, out
+        try:
+            env = dict(os.environ, VERIF_EVIDENCE_DIR="/tmp/seed-ev", VERIF_REPLAY_DIR="/tmp/seed-rp", VERIF_TIER="quick")
+            for i in range(1, 18):
+                pid = "C%02d" % i
+                rc, out = sh("%s/checks/check %s --tier quick" % (V, pid), cwd=V, env=env)
+                keys = [l.strip()[len("violated: "):] for l in out.splitlines() if l.strip().startswith("violated:")]
+                if rc != 0:
+                    fired[pid] = {"exit": rc, "violations": [k[:300] for k in keys][:6] or [out.strip()[-300:]]}
+        finally:
+            sh("git -C %s checkout -- ." % REPO)
+        rc, out = sh("git -C %s status --porcelain -- src" % REPO)
+        assert not out.strip(), "repo not restored: " + out
     dst = os.path.join(V, "seeded", sid)
     os.makedirs(dst, exist_ok=True)
     prev = None
@@ -74,7 +93,8 @@ def main():
         "why_tests_miss_it": meta.get("why_tests_miss_it"),
         "confirmation": conf,
         "what_i_ran": ["scratch worktree of /repo HEAD: cargo test --test demo (clean) ; git apply patch.diff ; cargo test --workspace --no-fail-fast --offline ; cargo test --test demo",
-                       "git -C /repo apply patch.diff ; checks/check C01..C17 --tier quick ; git -C /repo checkout -- ."],
+                       ("scratch copy of /repo with patch.diff applied (VERIF_REPO) ; checks/check C01..C17 --tier quick" if COPY else
+                        "git -C /repo apply patch.diff ; checks/check C01..C17 --tier quick ; git -C /repo checkout -- .")],
         "checks_fired": fired,
         "detected_by_target_property_check": prop in fired and fired[prop]["exit"] == 1,
         "detected_by_any_check": any(v["exit"] == 1 for v in fired.values()),
